@@ -146,3 +146,18 @@ where
     }
     Ok(())
 }
+
+/// Verification hook: public re-exports of the private codec types (feature `verif`, off by default).
+#[cfg(feature = "verif")]
+#[allow(unused_imports)]
+pub mod verif {
+    pub use super::config::SslConfig;
+    pub use super::shadowsocks::verif::PayloadCodec as ShadowsocksPayloadCodec;
+    pub use super::shadowsocks::verif::ServerContext as ShadowsocksServerContext;
+    pub use super::template::message::InboundIn;
+    pub use super::template::message::OutboundIn;
+    pub use super::trojan::ServerCodec as TrojanServerCodec;
+    pub use super::trojan::new_codec as new_trojan_codec;
+    pub use super::vmess::ServerAeadCodec as VmessServerCodec;
+    pub use super::vmess::new_codec as new_vmess_codec;
+}
